@@ -41,7 +41,7 @@ pub fn bounds(tier: Tier) -> Vec<ConvBound> {
             mk(Fam::Txt, 0, &two, 3, 1, true, true),
             mk(Fam::Txt, 0, &two, 4, 0, false, false),
             mk(Fam::Map, 1, &two, 3, 1, true, true),
-            mk(Fam::Map, 0, &two_rev, 5, 0, false, true),
+            mk(Fam::Map, 0, &two_rev, 4, 0, false, true),
             mk(Fam::Arr, 0, &two, 3, 1, false, true),
             mk(Fam::Rtx, 0, &two, 3, 0, false, false),
             mk(Fam::Xml, 0, &two, 3, 0, false, false),
